@@ -32,6 +32,8 @@ pub struct Profile {
     pub levels: &'static [usize],
     pub max_tick: u32,
     pub drain: bool,
+    /// C12 only: bids may be priced 0 (a multiple of every tick) so that the level walk reaches the bottom of the price range
+    pub zero_bids: bool,
 }
 
 impl Profile {
@@ -59,6 +61,7 @@ impl Profile {
             levels: &LEVEL_CHOICES,
             max_tick: 10,
             drain: true,
+            zero_bids: false,
         }
     }
     /// C01: create / place / create-and-place / cancel / process-event / set-time only
@@ -123,6 +126,7 @@ impl RndGen {
         let cfg = Cfg { tick, levels, t0, trading0 };
         let max_k = ((PMAX as u64) - 1) / tick as u64; // k*tick <= PMAX-1 < PMAX
         let mode = rng.below(20);
+        let mode = if p.zero_bids && rng.chance(0.3) { 0 } else { mode };
         let center_k = match mode {
             0 => 1 + rng.below(6),               // just above the lowest grid price
             1 => max_k - rng.below(6),           // just below the largest grid price
@@ -242,6 +246,7 @@ impl RndGen {
                         _ => Some(band.price(rng)),
                     }
                 };
+                let price = if p.zero_bids && bid && price.is_some() && band.center_k < 12 && rng.chance(0.25) { Some(0) } else { price };
                 if let Some(pr) = price {
                     if pr % tick == 0 {
                         queue_target = Some((bid, pr));
@@ -288,6 +293,7 @@ impl RndGen {
                         _ => Some(band.price(rng)),
                     };
                     let price = if price.is_some() && rng.chance(p.p_offgrid_modify) { Some(offgrid_price(rng, tick, &band)) } else { price };
+                    let price = if p.zero_bids && o.bid && price.is_some() && band.center_k < 12 && rng.chance(0.15) { Some(0) } else { price };
                     let vol = match rng.below(8) {
                         0..=1 => None,
                         2..=4 => {
